@@ -51,7 +51,17 @@ class C03(Prop):
             rr = rng.choice(["1/32", "1/10", "3/100", "1/5"])
             c["ops"] = [["q", "RATE", bs.T0, rr, rr], ["accrue", bs.T0, 1]] + c["ops"]
             c["interest"] = True
-        c["ops"] += [["rebal", t, int(by_weight), 1, 1, "0", tgt], ["weights"], ["nlv", 0],
+        first = ["rebal", t, int(by_weight), 1, 1, "0", tgt]
+        if rng.random() < 0.25 and keys:
+            # the request is previewed with make_trades(), a quote then moves, and the same request object is executed:
+            # it must reach the target at the quotes and the NLV of the moment it is executed
+            kq = rng.choice(keys)
+            last_q = [op for op in c["ops"] if op[0] == "q" and op[1] == kq and "nan" not in (op[3], op[4])]
+            if last_q:
+                mid = (Fraction(last_q[-1][3]) + Fraction(last_q[-1][4])) / 2
+                _, b2, a2 = bs.gen_price(rng, exact, mid)
+                first = first + [["q", kq, t, fr(b2), fr(a2)]]
+        c["ops"] += [first, ["weights"], ["nlv", 0],
                      ["rebal", t + 1, int(by_weight), 1, 1, "0", tgt], ["nlv", 0]]
         return c
 
